@@ -39,6 +39,11 @@ def programs(seed, n):
             body.append({"cmd": "repair_index", "read_all": rng.random() < 0.5})
         if rng.random() < 0.3:
             body.append({"cmd": "config", "compression": rng.choice([1, 4])})
+        if i % 5 == 3:
+            # a configuration change must reach the store new handles read it from: append-only, then commands that it refuses
+            k = rng.randrange(1, len(body) + 1)
+            body[k:k] = [{"cmd": "config", "append_only": True}, {"cmd": "forget", "snaps": [0]}, {"cmd": "prune", "opts": {"keep_delete": 0, "keep_pack": 0, "instant": True, "max_repack": "unlimited", "max_unused": "0"}},
+                         {"cmd": "config", "append_only": False}]
         body.append({"cmd": "check"})
         mode = ["all", "meta", "packs", "some"][i % 4]
         body += [{"cmd": "hot_damage", "mode": mode, "seed": seed * 100 + i}, {"cmd": "repair_hotcold"}, {"cmd": "check"},
